@@ -65,7 +65,15 @@ func (cdisp) Gen(r *rand.Rand, sessions int) []string {
 			case k < 80:
 				if running && connected {
 					connected = false
-					out = append(out, "disconnect")
+					if r.Intn(3) == 0 {
+						// the application's disconnected handler sends a request
+						n++
+						id := fmt.Sprintf("s%dm%d", s, n)
+						ids = append(ids, id)
+						out = append(out, "dsend "+id)
+					} else {
+						out = append(out, "disconnect")
+					}
 				}
 			case k < 90:
 				if running && !connected {
@@ -273,6 +281,8 @@ func runCDisp(ops []string, emit func(string)) {
 	arms := &armTracker{}
 	var waitStart time.Time
 	var waitOldest time.Duration
+	hsend := ""
+	var hpre []string
 	for _, l := range ops {
 		f := fields(l)
 		if f[0] == "reset" {
@@ -308,6 +318,20 @@ func runCDisp(ops []string, emit func(string)) {
 					kind = "timeout"
 				}
 				lg.add("cancel:" + id + ":" + kind)
+			})
+			cc := c
+			c.SetOnDisconnectedHandler(func(err error) {
+				if hsend == "" {
+					return
+				}
+				nextID = hsend
+				if err := cc.SendRequest(core.NewHeartbeatRequest()); err != nil {
+					hpre = append(hpre, "rejected:"+hsend)
+				} else {
+					hpre = append(hpre, "accepted:"+hsend)
+				}
+				// a slow handler: the dispatcher gets its turn while the handler is still running
+				_, _ = quiesce(100 * time.Millisecond)
 			})
 			lg.take()
 			arms.reset()
@@ -364,6 +388,12 @@ func runCDisp(ops []string, emit func(string)) {
 			time.Sleep(dispTimeout + 15*time.Millisecond)
 		case "disconnect":
 			fc.drop(fmt.Errorf("connection lost"))
+		case "dsend":
+			hsend = f[1]
+			fc.drop(fmt.Errorf("connection lost"))
+			hsend = ""
+			pre = append(pre, hpre...)
+			hpre = nil
 		case "reconnect":
 			done := make(chan struct{})
 			go func() { fc.reconnect(); close(done) }()
@@ -390,7 +420,7 @@ func runCDisp(ops []string, emit func(string)) {
 			emit("TIMING")
 			continue
 		}
-		if f[0] == "disconnect" || f[0] == "stop" {
+		if f[0] == "disconnect" || f[0] == "dsend" || f[0] == "stop" {
 			arms.reset()
 		}
 		if f[0] == "wait" && doubleTimeout(out) {
